@@ -1,6 +1,6 @@
 #!/bin/bash
 # Runs every claimed check (quick tier unless TIER is set); prints one summary line each.
-cd /verif
+cd "$(dirname "$0")/.."
 ids=$(python3 -c "import json;print(' '.join(c['property_id'] for c in json.load(open('MANIFEST.json'))['checks']))")
 for c in ${@:-$ids}; do
   s=$(date +%s)
@@ -11,7 +11,7 @@ done
 python3-vt - <<'P'
 import json,jsonschema,glob
 s=json.load(open('/root/.vp/EVIDENCE.schema.json'))
-for f in sorted(glob.glob('/verif/evidence/*.json')):
+for f in sorted(glob.glob('evidence/*.json')):
     try:
         jsonschema.validate(json.load(open(f)),s); print(f,'valid')
     except Exception as e:
